@@ -108,12 +108,22 @@ Step ==
            inv == IF e.a = "end" THEN InvFailures(setup, o, pre, e.verdict, entry.hasHam)
                   ELSE IF e.a = "yield" /\ setup.ctx # "base" /\ ~(C04_Own(o) /\ C04_NoRecompute(o)) THEN {"C04_AtYield"}
                   ELSE {}
-           bad == (e.a = "raise") \/ d # {} \/ ~order \/ ~legal \/ ~moved \/ inv # {}
+           \* C11: a composite displacement reports how many particles it moved, and without vetoes it moves
+           \* min(number of elements, eligible particles) of them (all elements one move object: eligible is unambiguous)
+           nok == Cardinality({i \in 1..Len(e.subs) : e.subs[i].ok})
+           sameObj == \A i \in 1..Len(entry.elems) : entry.elems[i] = entry.elems[1]
+           reported == IF e.a = "call" /\ entry.ctype = "cdisp"
+                       THEN /\ e.nmoved = nok
+                            /\ (e.noveto /\ sameObj) => nok = (IF Len(entry.elems) < Cardinality(UniqueLabels(s.labels[entry.elems[1]]))
+                                                                THEN Len(entry.elems) ELSE Cardinality(UniqueLabels(s.labels[entry.elems[1]])))
+                       ELSE TRUE
+           bad == (e.a = "raise") \/ ~reported \/ d # {} \/ ~order \/ ~legal \/ ~moved \/ inv # {}
        IN /\ (e.a = "raise") => Report("raise", {e.where})
           /\ (d # {}) => Report("step", d)
           /\ (~order) => Report("protocol", {pc})
           /\ (~legal) => Report("illegal-choice", {"legal"})
           /\ (~moved) => Report("not-moved", {"entitled"})
+          /\ (~reported) => Report("not-moved", {"composite-count"})
           /\ (inv # {}) => Report("inv", inv)
           /\ s' = o
           /\ pre' = IF e.a = "yield" THEN o ELSE pre
